@@ -75,18 +75,22 @@ func (g *gen) blockLines(b *blk, c sctx) []line {
 		out := make([]line, len(ls))
 		for i, l := range ls {
 			ind := ""
-			verbatim := strings.HasPrefix(l, "\x00") // continues a code span, raw tag or title: leading spaces would be content
+			// a line that continues a code span, raw tag or title is marked with a NUL; its
+			// leading spaces are stripped like those of any continuation line (F41)
+			verbatim := strings.HasPrefix(l, "\x00")
 			l = strings.TrimPrefix(l, "\x00")
 			switch {
 			case i == 0:
 				ind = g.indent(c)
-			case verbatim:
 			case g.free() && g.r.Intn(5) == 0:
 				ind = strings.Repeat(" ", g.r.Range(1, 7)) // stripped from continuation lines
 				g.f("spelling:continuation-indent")
+				if verbatim {
+					g.f("spelling:continuation-indent-inside-construct")
+				}
 			}
 			out[i] = line{text: ind + l, sp: len(ind)}
-			if i > 0 && !verbatim && (c.inQuote || c.inItem) && (c.quoteOnly || !g.no("spelling:lazy-in-item")) && g.free() && ind == "" && startsWithWord(l) && g.r.Intn(5) == 0 {
+			if i > 0 && (c.inQuote || c.inItem) && (c.quoteOnly || !g.no("spelling:lazy-in-item")) && g.free() && ind == "" && startsWithWord(l) && g.r.Intn(5) == 0 {
 				out[i].lazy = true
 				g.f("spelling:lazy-continuation")
 			}
@@ -114,6 +118,9 @@ func (g *gen) blockLines(b *blk, c sctx) []line {
 			ind := ""
 			if i == 0 {
 				ind = g.indent(c)
+			} else if g.free() && g.r.Intn(5) == 0 {
+				ind = strings.Repeat(" ", g.r.Range(1, 7)) // stripped like any paragraph continuation line
+				g.f("spelling:continuation-indent-setext")
 			}
 			l = strings.TrimPrefix(l, "\x00")
 			out = append(out, line{text: ind + l, sp: len(ind)})
